@@ -235,6 +235,22 @@ impl liquid_core::Renderable for YieldR {
     }
 }
 
+/// `{{ x | yf }}`: a scheduling point in the middle of an expression (between two filters)
+#[derive(Clone, liquid_core::ParseFilter, liquid_core::FilterReflection)]
+#[filter(name = "yf", description = "harness: scheduling point inside a filter chain", parsed(YieldFilter))]
+struct YieldF;
+
+#[derive(Debug, Default, liquid_core::Display_filter)]
+#[name = "yf"]
+struct YieldFilter;
+
+impl liquid_core::Filter for YieldFilter {
+    fn evaluate(&self, input: &dyn liquid_core::ValueView, _runtime: &dyn liquid_core::Runtime) -> liquid_core::Result<liquid_core::Value> {
+        yield_point("filter");
+        Ok(input.to_value())
+    }
+}
+
 #[derive(Debug, Default, Clone)]
 struct Src(HashMap<String, String>);
 impl liquid::partials::PartialSource for Src {
@@ -277,7 +293,7 @@ const TEMPLATES: [&str; 8] = [
     // 6: minimal
     "{% include 'm' %}{% yield %}{% include 'm' %}",
     // 7: per-render data and bindings (rendered concurrently with different data)
-    "{{ who }}{% yield %}{% assign x = who %}{% yield %}{{ x }}{% capture c %}{{ who }}{% yield %}{% cycle 'p', 'q' %}{% endcapture %}{{ c }}{% increment n %}{% for i in list %}{% yield %}{{ i }}{{ who }}{% endfor %}",
+    "{{ who | yf | append: who | yf | upcase }}{% yield %}{% assign x = who | yf | downcase %}{% yield %}{{ x }}{% capture c %}{{ who }}{% yield %}{% cycle 'p', 'q' %}{% endcapture %}{{ c }}{% increment n %}{% for i in list %}{% yield %}{{ i }}{{ who }}{% endfor %}",
 ];
 
 struct World {
@@ -310,7 +326,7 @@ fn language() -> Arc<liquid_core::parser::Language> {
 
 fn world() -> World {
     use liquid_core::partials::PartialCompiler;
-    let parser = liquid::ParserBuilder::with_stdlib().tag(YieldTag).partials(liquid::partials::LazyCompiler::new(source())).build().expect("parser builds");
+    let parser = liquid::ParserBuilder::with_stdlib().tag(YieldTag).filter(YieldF).partials(liquid::partials::LazyCompiler::new(source())).build().expect("parser builds");
     let templates = TEMPLATES.iter().map(|t| parser.parse(t).expect("template parses")).collect();
     let store = liquid::partials::LazyCompiler::new(source()).compile(language()).expect("store compiles");
     let mut data = liquid::Object::new();
